@@ -39,6 +39,7 @@
 #include <fcntl.h>
 #include <signal.h>
 #include <stdint.h>
+#include <time.h>
 #include <sys/mman.h>
 #include <sys/stat.h>
 #include <sys/wait.h>
@@ -59,6 +60,7 @@
 #define PTRFREE2  31
 
 #define NOINLINE __attribute__((noinline))
+#define CHILD_TIMEOUT_MS 60000
 
 /* ------------------------------------------------------------------ state */
 
@@ -551,9 +553,23 @@ static NOINLINE int drive_replay(const char *script, int chain)
 			out_flush();
 			_exit(0);
 		}
-		int status = 0;
-		waitpid(pid, &status, 0);
-		if (WIFSIGNALED(status)) {
+		int status = 0, waited_ms = 0, hung = 0, polls = 0;
+		/* a script is a handful of calls; a child still running after CHILD_TIMEOUT_MS does not return */
+		while (waitpid(pid, &status, WNOHANG) == 0) {
+			struct timespec ts = { 0, polls < 100 ? 100 * 1000 : 2 * 1000 * 1000 };
+			nanosleep(&ts, 0);
+			if (polls++ >= 100) waited_ms += 2;
+			if (waited_ms > CHILD_TIMEOUT_MS) {
+				kill(pid, SIGKILL);
+				waitpid(pid, &status, 0);
+				hung = 1;
+				break;
+			}
+		}
+		if (hung) {
+			out_str("{\"ev\":\"Hang\"}\n");
+		}
+		else if (WIFSIGNALED(status)) {
 			out_str("{\"ev\":\"Fault\",\"sig\":"); out_long(WTERMSIG(status)); out_str(",\"during\":\"child\"}\n");
 		}
 		out_str("{\"ev\":\"Reset\"}\n");
@@ -574,7 +590,7 @@ static long rnd_below(long n) { return (long) (rnd() % (uint64_t) n); }
 static const long boundary[] = {
 	1, 7, 8, 9, 15, 16, 17, 24, 25, 32, 33, 47, 48, 49, 64, 65, 80, 81, 96, 97, 128, 129,
 	160, 161, 192, 193, 255, 256, 257, 479, 480, 481, 736, 737, 992, 993, 2016, 2017,
-	4063, 4064, 4065, 4095, 4096, 4097, 8160, 8161
+	4063, 4064, 4065, 4095, 4096, 4097, 7648, 7649, 7904, 7905, 8160, 8161
 };
 #define NBOUNDARY ((long) (sizeof boundary / sizeof boundary[0]))
 
